@@ -74,6 +74,9 @@ pub struct RtProgram {
     /// this start time (it has to wait for the simulation lock until this runtime is gone): (k, start time)
     #[serde(default)]
     pub intruder: Option<(u32, u64)>,
+    /// handlers hand work to a helper thread that reads the simulation clock (the first few events of the run)
+    #[serde(default)]
+    pub helper_reads: bool,
 }
 
 // ---------------------------------------------------------------- static expansion
@@ -238,6 +241,13 @@ impl EventLifecycle for App {
     }
 }
 
+/// what the intruding thread of the C04 fault does: a generic runtime of its own, built and dropped
+pub fn build_and_drop_generic_runtime(start_ns: u64) {
+    let app = App { insts: vec![], specs: vec![], roots: vec![], log: Log::default() };
+    let rt = Builder::seeded(3).quiet().start_time(SimTime::from_duration(Duration::from_nanos(start_ns))).build(app);
+    drop(rt);
+}
+
 struct Intruder {
     k: usize,
     count: usize,
@@ -266,9 +276,31 @@ fn intruder_hook() {
     });
 }
 
+thread_local! {
+    /// (remaining helper reads, observations: (uid, clock seen by the handler, clock seen by its helper thread))
+    static HELPER: std::cell::RefCell<(u32, Vec<(usize, u128, u128)>)> = const { std::cell::RefCell::new((0, Vec::new())) };
+}
+fn helper_hook(uid: usize) {
+    let go = HELPER.with(|h| {
+        let mut h = h.borrow_mut();
+        if h.0 > 0 {
+            h.0 -= 1;
+            true
+        } else {
+            false
+        }
+    });
+    if go {
+        let mine = SimTime::now().as_nanos();
+        let theirs = std::thread::scope(|s| s.spawn(|| SimTime::now().as_nanos()).join().unwrap_or(u128::MAX));
+        HELPER.with(|h| h.borrow_mut().1.push((uid, mine, theirs)));
+    }
+}
+
 impl Event<App> for Ev {
     fn handle(self, rt: &mut Runtime<App>) {
         intruder_hook();
+        helper_hook(self.uid);
         let now = ns_of(SimTime::now());
         rt.app.log.handled.push((self.uid, now));
         if self.uid >= EXT_BASE {
@@ -674,6 +706,19 @@ fn check_c02(p: &RtProgram, insts: &[Inst], roots: &[usize], start: u64, real: &
             Err(pl) => {
                 let _ = crate::take_panic(pl); // a panicking step is C10's statement
             }
+        }
+    }
+    // work handed to a helper thread from inside a handler: the simulation clock is process-wide, the helper reads the
+    // same time as the handler that started it
+    if p.helper_reads {
+        HELPER.with(|h| *h.borrow_mut() = (6, Vec::new()));
+        let _ = run_plain(p, false);
+        let obs = HELPER.with(|h| std::mem::take(&mut *h.borrow_mut())).1;
+        info.probe_n("helper_thread_read_the_clock", obs.len() as u64);
+        if let Some((uid, mine, theirs)) = obs.iter().find(|o| o.1 != o.2) {
+            info.violate(Violation::new("C02", "clock-differs-across-threads", format!(
+                "handler of event {uid} read SimTime::now() = {mine} ns, a helper thread it started and joined read {theirs} ns")));
+            return;
         }
     }
     // another thread of the process builds a runtime while this one is inside a handler: it must wait for the simulation
@@ -1319,7 +1364,10 @@ pub fn generate(prop: &str, rng: &mut Rng, tier: Tier) -> RtProgram {
     // now and then the whole program is stretched: its time unit is not the nanosecond but up to 1000 s, which moves
     // start time, timestamps and bucket width beyond 2^64 ns (584 simulated years) without changing the program
     let scale = if rng.chance(1, 12) { *rng.pick(&[7u64, 1_000, 1_000_000, 1_000_000_007, 1_000_000_000_000, 1_000_000_000_000]) } else { 1 };
-    let mut prog = RtProgram { n, t_ns, scale, start_ns, specs, roots, max_instances, limits: vec![], steps: vec![], intruder: None };
+    let mut prog = RtProgram { n, t_ns, scale, start_ns, specs, roots, max_instances, limits: vec![], steps: vec![], intruder: None, helper_reads: false };
+    if prop == "C02" && rng.chance(1, 100) {
+        prog.helper_reads = true;
+    }
     if prop == "C02" && rng.chance(1, 150) {
         prog.intruder = Some((rng.below(64) as u32, if rng.chance(1, 2) { 0 } else { rng.below(t_ns.saturating_mul(1000).max(2)) }));
     }
